@@ -1,7 +1,9 @@
 // c05: conformance harness for AttrSet.tla / AttrModel.tla (property C05).
 //
 //	c05 replay -edges F -nkeys K -rep N -out R     replay every TLC edge on the real attribute package
+//	c05 iter -edges F -nkeys K -rep N -out R       replay every TLC edge of AttrIter.tla on real iterators
 //	c05 random -n N -long L -out TRACE -res R      random programs -> ndjson trace for Trace_AttrSet.tla
+//	c05 conc -g G -out TRACE -res R                goroutines sharing immutable Sets -> trace for Trace_AttrSet.tla
 package main
 
 import (
@@ -11,14 +13,18 @@ import (
 
 func main() {
 	if len(os.Args) < 2 {
-		fmt.Println("usage: c05 replay|random ...")
+		fmt.Println("usage: c05 replay|iter|random|conc ...")
 		os.Exit(3)
 	}
 	switch os.Args[1] {
 	case "replay":
 		replay(os.Args[2:])
+	case "iter":
+		iterReplay(os.Args[2:])
 	case "random":
 		random(os.Args[2:])
+	case "conc":
+		conc(os.Args[2:])
 	default:
 		os.Exit(3)
 	}
